@@ -180,6 +180,28 @@ func c03Apply(f *refage.File, owner []int, e c03Edit, seed uint64) (hdr []byte, 
 		}
 		h.Stanzas[j].Body = b[:nl]
 		touch(j)
+	case "body-strip":
+		// leading zero bytes dropped (the same number to an RSA decryption); at least one byte goes
+		b := h.Stanzas[j].Body
+		for len(b) > 1 && b[0] == 0 {
+			b = b[1:]
+		}
+		if len(b) == len(h.Stanzas[j].Body) && len(b) > 0 {
+			b = b[1:]
+		}
+		if len(h.Stanzas[j].Body) == 0 {
+			b = []byte{0}
+		}
+		h.Stanzas[j].Body = append([]byte{}, b...)
+		touch(j)
+	case "body-pad":
+		// a zero byte in front (K even) or at the end (K odd)
+		if e.K%2 == 0 {
+			h.Stanzas[j].Body = append([]byte{0}, h.Stanzas[j].Body...)
+		} else {
+			h.Stanzas[j].Body = append(append([]byte{}, h.Stanzas[j].Body...), 0)
+		}
+		touch(j)
 	case "body-swap":
 		k := e.K % n
 		h.Stanzas[j].Body = append([]byte{}, f.Header.Stanzas[k].Body...)
@@ -328,7 +350,7 @@ func c03Gen(t *rapid.T) c03Case {
 	if rapid.Bool().Draw(t, "moreIdentities") {
 		c.ForeignBefore, c.ForeignAfter = rapid.IntRange(0, 2).Draw(t, "fb"), rapid.IntRange(0, 3).Draw(t, "fa")
 	}
-	kinds := []string{"type", "type-swap", "arg-char", "arg-add", "arg-del", "body-flip", "body-len", "body-swap", "insert-grease", "insert-attacker", "delete", "dup", "permute", "mac-only", "raw-flip", "raw-insert", "raw-delete", "rewrap", "rewrap", "none"}
+	kinds := []string{"type", "type-swap", "arg-char", "arg-add", "arg-del", "body-flip", "body-len", "body-swap", "body-strip", "body-pad", "insert-grease", "insert-attacker", "delete", "dup", "permute", "mac-only", "raw-flip", "raw-insert", "raw-delete", "rewrap", "rewrap", "none"}
 	e := c03Edit{Kind: rapid.SampledFrom(kinds).Draw(t, "edit"), J: rapid.IntRange(0, 11).Draw(t, "j"), K: rapid.IntRange(0, 11).Draw(t, "k"), N: rapid.IntRange(0, 300).Draw(t, "n")}
 	e.MAC = rapid.SampledFrom([]string{"keep", "keep", "random", "wrongkey", "truekey"}).Draw(t, "mac")
 	switch e.Kind {
@@ -448,6 +470,29 @@ func TestC03(t *testing.T) {
 			}
 		})
 		s.St.Exhaust(fmt.Sprintf("all %d! orders of a %d-stanza header, with the original MAC and re-MACed under the true key", k, k), int64(2*n))
+	}, check)
+	// stanza bodies that begin with a zero byte (for ssh-rsa: a ciphertext that is numerically short), stripped and padded
+	pbt.Each(s, "edits-exhaustive", func(yield func(c03Case)) {
+		p := hx.ThePool()
+		n := 0
+		for ki, kind := range []string{"rsa", "x25519", "ed25519"} {
+			if !s.Mine(ki) {
+				continue
+			}
+			recs := []hx.RecSpec{{Kind: "x25519", Idx: 3}, {Kind: kind, Idx: 0}}
+			found := 0
+			for seed := uint64(0); seed < 20000 && found < 3; seed++ {
+				if refStanza(p, recs[1], c03FileKey, seed*131+2)[0].Body[0] != 0 {
+					continue
+				}
+				found++
+				for _, e := range []c03Edit{{Kind: "none", MAC: "keep"}, {Kind: "body-strip", J: 1, MAC: "keep"}, {Kind: "body-pad", J: 1, K: 0, MAC: "keep"}, {Kind: "body-pad", J: 1, K: 1, MAC: "keep"}, {Kind: "body-strip", J: 0, MAC: "keep"}} {
+					yield(c03Case{Recs: recs, Seed: seed, PlainLen: 20, Edit: e})
+					n++
+				}
+			}
+		}
+		s.St.Exhaust("files whose ssh-rsa / X25519 / ssh-ed25519 stanza body begins with a zero byte (3 per type): leading zeros stripped, a zero byte added in front or at the end", int64(n))
 	}, check)
 	pbt.Rapid(s, "edits", s.N(5000, 30000), c03Gen, check)
 }
